@@ -1,140 +1,42 @@
-(* WinRectSet.v -- the damage / visible-region set of the window layer.
+(* WinRectSet.v -- the damage / visible-region set of the window layer IS the rectangle set
+   of property C05: the functions below are the model of src/rectset.c in RectSetDefs.v
+   (repaired code: stale = false), under the names the window model uses.  So every theorem
+   of the C05 development (RectSetProofs / RectSetSubtract / RectSetQueries / RectSetTerm:
+   the invariant Inv -- members non-empty, pairwise separated, sorted --, exact regions of
+   add and subtract, exactness of contains, termination) applies to the window layer's sets.
 
-   A line-by-line transliteration of src/rectset.c (add with the merge-and-restart scan and
-   the split-and-recurse branch, subtract with its index loop, translate, contains), written
-   for the WINDOW layer (properties C01, C02, C14, C15): the window code hands one expose
-   call per STORED rectangle and scrolls the terminal once per STORED rectangle of the
-   visible region, so the observations of those properties depend on the exact rectangle
-   list and not only on the region.  (The faithful model for property C05 itself, with the
-   defect flag and the invariant proofs, is RectSet*.v of another group; this file models
-   the code WITH the fix of defect #1 applied -- the current rectangle is rebuilt from
-   top/left/bottom/right before the containment test and the union split.)
-
-   Loops that are not structurally recursive carry fuel and return None when it runs out. *)
+   The window code hands one expose call per STORED rectangle and scrolls the terminal once
+   per STORED rectangle of the visible region, so the exact rectangle lists matter, not only
+   the regions.  Loops that are not structurally recursive carry fuel and return None when
+   it runs out. *)
 From Coq Require Import ZArith List Bool.
 From Tickit Require Import RectDefs.
+From Tickit Require RectSetDefs.
 Import ListNotations.
 Local Open Scope Z_scope.
 
 Definition rectset := list rect.
 
-(* cmprect(a, r) > 0 *)
-Definition cmprect_gt (a r : rect) : bool :=
-  if negb (top a =? top r) then top a - top r >? 0 else left a - left r >? 0.
+Definition rs_insert : rectset -> rect -> rectset := RectSetDefs.rs_insert.
+Definition rs_delete : rectset -> nat -> rectset := RectSetDefs.rs_delete.
 
-(* insert_rect: before the first element that compares greater *)
-Fixpoint rs_insert (s : rectset) (r : rect) : rectset :=
-  match s with
-  | [] => [r]
-  | x :: rest => if cmprect_gt x r then r :: s else x :: rs_insert rest r
-  end.
-
-(* delete_rect *)
-Fixpoint rs_delete (s : rectset) (i : nat) : rectset :=
-  match s, i with
-  | [], _ => []
-  | _ :: rest, O => rest
-  | x :: rest, S j => x :: rs_delete rest j
-  end.
-
-(* outcome of one pass of the `for` loop of tickit_rectset_add *)
-Inductive scan_res :=
-| ScanInsert                                   (* fell out of the loop (break or end) *)
-| ScanReturn                                   (* already entirely covered *)
-| ScanStretch (i : nat) (t l b r : Z)          (* delete i, goto restart with new bounds *)
-| ScanSplit (i : nat) (x : rect).              (* delete i, recurse on r_add x cur *)
-
-Fixpoint rs_scan (s : rectset) (i : nat) (t l b r : Z) : scan_res :=
-  match s with
-  | [] => ScanInsert
-  | x :: rest =>
-    let xb := bottom x in
-    let xr := right x in
-    if b <? top x then ScanInsert
-    else if (t >? xb) || (l >? xr) || (r <? left x) then rs_scan rest (S i) t l b r
-    else
-      let cur := init_bounded t l b r in
-      if r_contains x cur then ScanReturn
-      else
-        let top_eq := t =? top x in
-        let bottom_eq := b =? xb in
-        let left_eq := l =? left x in
-        let right_eq := r =? xr in
-        if (top_eq && bottom_eq) || (left_eq && right_eq) then
-          ScanStretch i (if top x <? t then top x else t)
-                        (if left x <? l then left x else l)
-                        (if xb >? b then xb else b)
-                        (if xr >? r then xr else r)
-        else if (t =? xb) || (b =? top x) then rs_scan rest (S i) t l b r
-        else ScanSplit i x
-  end.
-
-(* tickit_rectset_add, on the four bounds *)
-Fixpoint rs_add_b (fuel : nat) (s : rectset) (t l b r : Z) : option rectset :=
-  match fuel with
-  | O => None
-  | S f =>
-    match rs_scan s O t l b r with
-    | ScanInsert => Some (rs_insert s (init_bounded t l b r))
-    | ScanReturn => Some s
-    | ScanStretch i t' l' b' r' => rs_add_b f (rs_delete s i) t' l' b' r'
-    | ScanSplit i x =>
-      fold_left (fun acc p => match acc with
-                              | Some s' => rs_add_b f s' (top p) (left p) (bottom p) (right p)
-                              | None => None
-                              end)
-                (r_add x (init_bounded t l b r)) (Some (rs_delete s i))
-    end
-  end.
-
+(* tickit_rectset_add *)
 Definition rs_add (fuel : nat) (s : rectset) (q : rect) : option rectset :=
-  rs_add_b fuel s (top q) (left q) (bottom q) (right q).
+  RectSetDefs.rs_add fuel false s q.
 
 Definition rs_add_list (fuel : nat) (s : rectset) (l : list rect) : option rectset :=
-  fold_left (fun acc p => match acc with Some s' => rs_add fuel s' p | None => None end) l (Some s).
+  RectSetDefs.rs_add_list fuel false s l.
 
-(* tickit_rectset_subtract: the index loop; [i] is the index about to be inspected *)
-Fixpoint rs_sub_from (fuel : nat) (s : rectset) (i : nat) (hole : rect) : option rectset :=
-  match fuel with
-  | O => None
-  | S f =>
-    match nth_error s i with
-    | None => Some s
-    | Some x =>
-      if negb (r_intersects x hole) then rs_sub_from f s (S i) hole
-      else match rs_add_list f (rs_delete s i) (r_subtract x hole) with
-           | Some s' => rs_sub_from f s' i hole
-           | None => None
-           end
-    end
-  end.
-
+(* tickit_rectset_subtract *)
 Definition rs_subtract (fuel : nat) (s : rectset) (hole : rect) : option rectset :=
-  rs_sub_from fuel s O hole.
+  RectSetDefs.rs_subtract fuel false s hole.
 
-Definition rs_translate (s : rectset) (down rightw : Z) : rectset :=
-  map (fun x => r_translate x down rightw) s.
+(* tickit_rectset_translate *)
+Definition rs_translate : rectset -> Z -> Z -> rectset := RectSetDefs.rs_translate.
 
 (* tickit_rectset_contains *)
-Fixpoint rs_contains (fuel : nat) (s : rectset) (q : rect) : option bool :=
-  match fuel with
-  | O => None
-  | S f =>
-    (fix scan (l : rectset) : option bool :=
-       match l with
-       | [] => Some false
-       | x :: rest =>
-         if negb (r_intersects x q) then scan rest
-         else if (top q <? top x) || (left q <? left x) then Some false
-         else if (top q <? bottom x) && (bottom x <? bottom q) then
-           match rs_contains f s (init_bounded (bottom x) (left q) (bottom q) (right q)) with
-           | None => None
-           | Some false => Some false
-           | Some true => Some (r_contains x (mkRect (top q) (left q) (bottom x - top q) (cols q)))
-           end
-         else Some (r_contains x q)
-       end) s
-  end.
+Definition rs_contains (fuel : nat) (s : rectset) (q : rect) : option bool :=
+  RectSetDefs.rs_contains fuel s q.
 
 (* fuel used by the window layer (far above what any explored history needs; a result of
    None makes the window state faulty, and every theorem is stated for non-faulty runs) *)
